@@ -498,9 +498,15 @@ func famCli(tr *Trace, id *int, scratch, bin, behaviours string) int {
 			panic("famCli: the configuration no longer has the values the environment references replace")
 		}
 		must(os.WriteFile(cfgPath, []byte(yCli), 0o644))
-		// the reference bytes: a library build of the same configuration
+		// the reference bytes: a library build of the same configuration, for the packager the tool is to use - the one given
+		// with -p whatever the target is called, otherwise the one the target's extension names (Cli!Built)
+		other := map[string]string{"deb": "rpm", "rpm": "apk", "apk": "ipk", "ipk": "deb", "archlinux": "deb"}
+		built := f
+		if targetKind == "file_other_ext" && !withP {
+			built = other[f]
+		}
 		var ref bytes.Buffer
-		refErr := packageWith(y, f, &ref)
+		refErr := packageWith(y, built, &ref)
 		refName := ""
 		if pk, err := nfpm.Get(f); err == nil {
 			if cfg, err := parseCfg(y); err == nil {
@@ -515,6 +521,8 @@ func famCli(tr *Trace, id *int, scratch, bin, behaviours string) int {
 			target = filepath.Join(outDir, "custom-name"+exts[f])
 		case "file_foreign_ext":
 			target = filepath.Join(outDir, "custom-name.bin")
+		case "file_other_ext":
+			target = filepath.Join(outDir, "custom-name"+exts[other[f]])
 		case "dir":
 			target = outDir
 		case "dir_slash":
@@ -573,7 +581,7 @@ func famCli(tr *Trace, id *int, scratch, bin, behaviours string) int {
 		// where is the package expected
 		expPath := ""
 		switch targetKind {
-		case "file", "file_foreign_ext", "devfull", "existing_larger":
+		case "file", "file_foreign_ext", "file_other_ext", "devfull", "existing_larger":
 			expPath = target
 		case "dir", "dir_slash":
 			expPath = filepath.Join(outDir, refName)
@@ -663,6 +671,8 @@ func famCli(tr *Trace, id *int, scratch, bin, behaviours string) int {
 		}
 		run(f, "file", "none", false, nil) // packager inferred from the extension
 		run(f, "file_foreign_ext", "none", true, nil)
+		run(f, "file_other_ext", "none", true, nil)  // -p wins over the extension
+		run(f, "file_other_ext", "none", false, nil) // the extension names the packager
 		run(f, "file_foreign_ext", "none", false, nil) // no packager, foreign extension: must fail, nothing written
 		run(f, "dir", "none", false, nil)              // no packager, directory: must fail
 		for _, fault := range []string{"missing_script", "missing_source", "bad_config"} {
